@@ -184,6 +184,9 @@ type Src struct {
 	Delay map[int]time.Duration
 	// BlockAt >= 0: Next at position BlockAt blocks until its context is done.
 	BlockAt int
+	// IgnoreCtx: Next pays no attention to its context (neither at entry nor while it is slow).
+	IgnoreCtx bool
+	NextInv   []uint64 // event number of every Next invocation
 
 	Pos        int
 	NextCalls  int
@@ -216,8 +219,12 @@ func (s *Src) Next(ctx context.Context) (int, error) {
 	}
 	s.NextActive++
 	s.NextCalls++
+	s.NextInv = append(s.NextInv, sim.Seq())
 	defer func() { s.NextActive--; s.LastNextRet = sim.Seq() }()
 	sim.Yield("src.Next:" + s.Name)
+	if s.IgnoreCtx {
+		ctx = context.Background()
+	}
 	if err := ctx.Err(); err != nil {
 		s.R.Logf("source %s: Next -> %v (context already done)", s.Name, err)
 		return 0, err
@@ -318,6 +325,9 @@ func NewDeadlineCtx(parent *Ctx, name string, d time.Duration) *Ctx {
 		pc = parent.C
 	}
 	c, cancel := context.WithTimeout(pc, d)
+	// When the deadline passes nobody may be blocked on this context; a tiny task makes the
+	// scheduler take a step at that instant so that WaitUntil conditions see the expiry on time.
+	context.AfterFunc(c, func() {})
 	return &Ctx{Name: name, C: c, cancel: cancel, Parent: parent, HasDeadline: true, DeadlineAt: int64(sim.Now() + d)}
 }
 
